@@ -1,5 +1,5 @@
 INIT Init
 NEXT Next
-CONSTANTS Dump = FALSE Size = "thorough"
+CONSTANTS Dump = FALSE Lite = FALSE Size = "thorough"
 INVARIANTS Inv
 CHECK_DEADLOCK FALSE
